@@ -745,3 +745,14 @@ func iteReader(c bool, a, b io.Reader) io.Reader {
 	return b
 }
 
+// ---------------------------------------------------------------------------
+// Control frame handlers (C08).
+
+//@ func ControlHandler.closeWithProtocolError
+//@   props C08
+//@   requires [dst] c.Dst != nil && reason != nil
+//@   ensures  [frame] result == nil ==> outByte(c.Dst, old(outLen(c.Dst))) == 0x88 && (outByte(c.Dst, old(outLen(c.Dst))+1)&0x80 != 0) == clientSide(c.State) && int(outByte(c.Dst, old(outLen(c.Dst))+1)&0x7f) <= 125 && int(outByte(c.Dst, old(outLen(c.Dst))+1)&0x7f) >= 2
+//@   ensures  [len]   result == nil ==> outLen(c.Dst) == old(outLen(c.Dst))+2+iteInt(clientSide(c.State), 4, 0)+int(outByte(c.Dst, old(outLen(c.Dst))+1)&0x7f)
+//@   ensures  [code]  result == nil && !clientSide(c.State) ==> outByte(c.Dst, old(outLen(c.Dst))+2) == 0x03 && outByte(c.Dst, old(outLen(c.Dst))+3) == 0xea
+//@   ensures  [codem] result == nil && clientSide(c.State) ==> outByte(c.Dst, old(outLen(c.Dst))+6)^outByte(c.Dst, old(outLen(c.Dst))+2) == 0x03 && outByte(c.Dst, old(outLen(c.Dst))+7)^outByte(c.Dst, old(outLen(c.Dst))+3) == 0xea
+//@   assigns stream(c.Dst)
